@@ -42,12 +42,23 @@ type Const struct {
 	Pos  int    `json:"pos"`
 }
 
+// Guard: a check on converted parameters made before the Go call; when it fires the wrapper
+// returns an error of its own.
+type Guard struct {
+	Kind  string `json:"kind"` // neg | toolong
+	Pos   int    `json:"pos"`  // callee position of the int parameter
+	SPos  int    `json:"spos"` // toolong: callee position of the string/bytes parameter
+	Bound int64  `json:"bound"`
+	n, s  *Param
+}
+
 type Record struct {
 	Name    string   `json:"name"`
 	Min     int      `json:"min"`
 	Max     int      `json:"max"`
 	Params  []*Param `json:"params"`
 	Consts  []Const  `json:"consts"`
+	Guards  []*Guard `json:"guards"`
 	Callee  string   `json:"callee"`
 	Ret     string   `json:"ret"`
 	Regular bool     `json:"regular"`
@@ -67,6 +78,7 @@ type sObjOf struct{ p *Param }     // the *object.ByteSlice / *object.List a str
 type sRecv struct{ typ string }    // the receiver object of a method
 type sConst struct{ c Const }      // literal
 type sIndex0 struct{ p *Param }    // x[0] of a converted parameter
+type sLen struct{ p *Param }       // len(x) of a converted parameter
 type sTSVar struct{ p *Param; intCase bool } // the variable bound by a type switch on args[i]
 type sTSVal struct{ p *Param; intCase bool } // arg.Value() of it
 type sCall struct {
@@ -85,6 +97,7 @@ type pkgInfo struct {
 	funcs   map[string]*ast.FuncDecl            // plain functions
 	methods map[string]map[string]*ast.FuncDecl // receiver type -> name -> decl
 	imports map[*ast.File]map[string]string     // file -> local name -> import path
+	consts  map[string]ast.Expr                 // package-level constants
 	fileOf  map[ast.Node]*ast.File
 }
 
@@ -103,7 +116,7 @@ func loadPkg(rel string) *pkgInfo {
 		os.Exit(2)
 	}
 	p := &pkgInfo{dir: rel, funcs: map[string]*ast.FuncDecl{}, methods: map[string]map[string]*ast.FuncDecl{},
-		imports: map[*ast.File]map[string]string{}, fileOf: map[ast.Node]*ast.File{}}
+		imports: map[*ast.File]map[string]string{}, fileOf: map[ast.Node]*ast.File{}, consts: map[string]ast.Expr{}}
 	for _, e := range ents {
 		n := e.Name()
 		if !strings.HasSuffix(n, ".go") || strings.HasSuffix(n, "_test.go") {
@@ -126,6 +139,16 @@ func loadPkg(rel string) *pkgInfo {
 		}
 		p.imports[f] = imp
 		for _, d := range f.Decls {
+			if gd, ok := d.(*ast.GenDecl); ok && gd.Tok == token.CONST {
+				for _, sp := range gd.Specs {
+					vs := sp.(*ast.ValueSpec)
+					for i, n := range vs.Names {
+						if i < len(vs.Values) {
+							p.consts[n.Name] = vs.Values[i]
+						}
+					}
+				}
+			}
 			fd, ok := d.(*ast.FuncDecl)
 			if !ok {
 				continue
@@ -177,6 +200,9 @@ func (e *eval) fail(format string, a ...interface{}) {
 }
 
 func (e *eval) newParam(arg int, conv string) *Param {
+	if len(e.rec.Guards) > 0 {
+		e.fail("a parameter is converted after a value check")
+	}
 	p := &Param{Arg: arg, Conv: conv, Cast: "KNone", Pos: -1}
 	e.rec.Params = append(e.rec.Params, p)
 	return p
@@ -309,7 +335,7 @@ func (e *eval) callExpr(fr *frame, c *ast.CallExpr) sym {
 					return sLenArgs{}
 				}
 				if cv, ok := a.(sConv); ok {
-					return sUnknown{"len of parameter " + strconv.Itoa(cv.p.Arg)}
+					return sLen{cv.p}
 				}
 			}
 			return sUnknown{"len"}
@@ -598,7 +624,12 @@ func (e *eval) block(fr *frame, stmts []ast.Stmt) sym {
 				return r
 			}
 		case *ast.ReturnStmt:
-			if len(s.Results) != 1 {
+			if len(s.Results) == 2 {
+				if id, ok := s.Results[1].(*ast.Ident); !ok || id.Name != "nil" {
+					e.fail("return of a value together with an error")
+					return nil
+				}
+			} else if len(s.Results) != 1 {
 				e.fail("return with %d values", len(s.Results))
 				return nil
 			}
@@ -841,6 +872,11 @@ func (e *eval) ifStmt(fr *frame, s *ast.IfStmt) (bool, sym) {
 			}
 		}
 	}
+	// a value check on converted parameters: if count < 0 { error }, if len(s) > 0 && count > max/len(s) { error }
+	if g := e.guardCond(fr, s.Cond); g != nil && s.Else == nil && (returnsErrObject(s.Body) || returnsGoError(s.Body)) {
+		e.rec.Guards = append(e.rec.Guards, g)
+		return false, nil
+	}
 	// optional arguments present
 	if e.presentCond(fr, s.Cond) && s.Else == nil {
 		before := len(e.rec.Params)
@@ -859,6 +895,124 @@ func (e *eval) ifStmt(fr *frame, s *ast.IfStmt) (bool, sym) {
 	}
 	e.fail("if statement at %s", relPos(s.Pos()))
 	return true, nil
+}
+
+// returnsGoError: { return <zero>, errors.New(...) } in a function that returns (T, error)
+func returnsGoError(body *ast.BlockStmt) bool {
+	if len(body.List) != 1 {
+		return false
+	}
+	r, ok := body.List[0].(*ast.ReturnStmt)
+	if !ok || len(r.Results) != 2 {
+		return false
+	}
+	c, ok := r.Results[1].(*ast.CallExpr)
+	if !ok {
+		return false
+	}
+	pk, fn, ok := selName(c.Fun)
+	return ok && ((pk == "errors" && fn == "New") || (pk == "fmt" && fn == "Errorf"))
+}
+
+// constInt evaluates an integer constant expression (literals, package constants, << * + -)
+func (e *eval) constInt(fr *frame, x ast.Expr, depth int) (int64, bool) {
+	if depth > 8 {
+		return 0, false
+	}
+	switch v := x.(type) {
+	case *ast.ParenExpr:
+		return e.constInt(fr, v.X, depth+1)
+	case *ast.BasicLit:
+		if v.Kind == token.INT {
+			n, err := strconv.ParseInt(v.Value, 0, 64)
+			return n, err == nil
+		}
+	case *ast.Ident:
+		if _, bound := fr.env[v.Name]; bound {
+			return 0, false
+		}
+		if c, ok := fr.pkg.consts[v.Name]; ok {
+			return e.constInt(fr, c, depth+1)
+		}
+	case *ast.BinaryExpr:
+		a, ok1 := e.constInt(fr, v.X, depth+1)
+		b, ok2 := e.constInt(fr, v.Y, depth+1)
+		if !ok1 || !ok2 {
+			return 0, false
+		}
+		switch v.Op {
+		case token.SHL:
+			if b >= 0 && b < 63 {
+				return a << uint(b), true
+			}
+		case token.MUL:
+			return a * b, true
+		case token.ADD:
+			return a + b, true
+		case token.SUB:
+			return a - b, true
+		}
+	}
+	return 0, false
+}
+
+func (e *eval) intParam(fr *frame, x ast.Expr) *Param {
+	if cv, ok := e.expr(fr, x).(sConv); ok && cv.p.Conv == "CInt" {
+		return cv.p
+	}
+	return nil
+}
+
+func (e *eval) guardCond(fr *frame, cond ast.Expr) *Guard {
+	b, ok := cond.(*ast.BinaryExpr)
+	if !ok {
+		return nil
+	}
+	switch b.Op {
+	case token.LSS: // n < 0
+		if z, ok := intLit(b.Y); ok && z == 0 {
+			if p := e.intParam(fr, b.X); p != nil {
+				return &Guard{Kind: "neg", n: p}
+			}
+		}
+	case token.LAND: // len(s) > 0 && n > bound/len(s)
+		l, ok1 := b.X.(*ast.BinaryExpr)
+		r, ok2 := b.Y.(*ast.BinaryExpr)
+		if !ok1 || !ok2 || l.Op != token.GTR || r.Op != token.GTR {
+			return nil
+		}
+		ls, ok := e.expr(fr, l.X).(sLen)
+		if z, isLit := intLit(l.Y); !ok || !isLit || z != 0 {
+			return nil
+		}
+		n := e.intParam(fr, r.X)
+		if n == nil {
+			return nil
+		}
+		q := r.Y
+		if c, ok := q.(*ast.CallExpr); ok && len(c.Args) == 1 { // int64(bound/len(s))
+			if id, ok := c.Fun.(*ast.Ident); ok && (id.Name == "int64" || id.Name == "int") {
+				q = c.Args[0]
+			}
+		}
+		if pe, ok := q.(*ast.ParenExpr); ok {
+			q = pe.X
+		}
+		quo, ok := q.(*ast.BinaryExpr)
+		if !ok || quo.Op != token.QUO {
+			return nil
+		}
+		ls2, ok := e.expr(fr, quo.Y).(sLen)
+		if !ok || ls2.p != ls.p {
+			return nil
+		}
+		bound, ok := e.constInt(fr, quo.X, 0)
+		if !ok || bound < 0 {
+			return nil
+		}
+		return &Guard{Kind: "toolong", n: n, s: ls.p, Bound: bound}
+	}
+	return nil
 }
 
 func (e *eval) isErrReturn(fr *frame, s *ast.IfStmt) bool {
@@ -1125,6 +1279,16 @@ func (e *eval) finish(ret sym) {
 			return
 		}
 	}
+	for _, g := range rec.Guards {
+		if !used[g.n] || (g.s != nil && !used[g.s]) {
+			e.fail("a value check on a parameter that is not passed to %s", rec.Callee)
+			return
+		}
+		g.Pos = g.n.Pos
+		if g.s != nil {
+			g.SPos = g.s.Pos
+		}
+	}
 	for _, p := range rec.Params {
 		if !used[p] {
 			e.fail("a converted parameter is not passed to %s", rec.Callee)
@@ -1174,7 +1338,7 @@ func analyseFunc(name string, pkg *pkgInfo, file *ast.File, typ *ast.FuncType, b
 	e.finish(ret)
 	if !rec.Regular {
 		rec.Callee, rec.Ret = "", "RBool"
-		rec.Params, rec.Consts = nil, nil
+		rec.Params, rec.Consts, rec.Guards = nil, nil, nil
 		if !e.arity {
 			rec.Min, rec.Max = 0, 0
 		}
@@ -1288,6 +1452,17 @@ func emitCoq(recs []*Record) {
 				b.WriteString("; ")
 			}
 			fmt.Fprintf(&b, "(%d%%nat, %s)", c.Pos, coqConst(c))
+		}
+		b.WriteString("];\n     w_guards := [")
+		for j, g := range r.Guards {
+			if j > 0 {
+				b.WriteString("; ")
+			}
+			if g.Kind == "neg" {
+				fmt.Fprintf(&b, "GNeg %d", g.Pos)
+			} else {
+				fmt.Fprintf(&b, "GTooLong %d %d (%d)", g.SPos, g.Pos, g.Bound)
+			}
 		}
 		fmt.Fprintf(&b, "];\n     w_callee := %q; w_ret := %s; w_regular := %v |}", r.Callee, r.Ret, r.Regular)
 		if i+1 < len(recs) {
